@@ -216,7 +216,7 @@ def _borrowed(an: Analysis) -> None:
     from . import c02
 
     borrow(an, c02.check, {"C02.4": "C07.5"})
-    borrow(an, c06.check, {"C06.1": "C07.6", "C06.2": "C07.7", "C06.8": "C07.8"})
+    borrow(an, c06.check, {"C06.1": "C07.6", "C06.2": "C07.7", "C06.8": "C07.8", "C06.6": "C07.9"})
 
 
 def liveness(fixtures: str) -> list[dict]:
